@@ -21,8 +21,13 @@
      Call       one genotyped call (record x sample of a selected chromosome and
                 sample, biallelic record) of an output VCF of that run: q = the
                 --gt-qual-threshold, L = 10^GL in ppm, gt = ALT count | -1 no call |
-                -2 anything else, gq (-1 absent), mp = milli-phred of the summed 10^GL
-                of the other two genotypes, masszero. *)
+                -2 anything else, gq (-1 absent), mp = milli-phred (-10000 log10) of the
+                summed 10^GL of the other two genotypes - taken in the log domain from the
+                written GL values, never as 1 - max -, [mp_lo, mp_hi] = the same for the
+                ends of the rounding interval of the written GLs (6 significant digits of
+                a 32-bit float), masszero (both other GLs are the -1000 floor).
+                file = main | prior | writer (writer: GenotypeVcfWriter.write_genotypes
+                called directly on a table holding TLC-independent extreme triples). *)
 EXTENDS GenoCall, Json, IOUtils, TLC
 Trace == ndJsonDeserialize(IOEnv.TRACE_FILE)
 VARIABLES l
@@ -61,7 +66,9 @@ JudgeCall(e) ==
              IF e.gt = NoCall THEN e.gq = -1
              ELSE IF e.gt \notin Genos THEN FALSE
              ELSE IF e.masszero THEN e.gq = GQCap
-             ELSE e.gq \in GQRange(e.mp, MpTol(e.mp)))
+             ELSE /\ e.mp_lo <= e.mp /\ e.mp <= e.mp_hi
+                  /\ e.mp_hi - e.mp_lo <= 2 * MpTol(e.mp)      \* the driver cannot widen the interval at will
+                  /\ e.gq \in GQBetween(e.mp_lo, e.mp_hi))
 
 Judge(e) ==
     CASE e.ev = "Posterior" -> JudgePosterior(e)
